@@ -302,6 +302,10 @@ func runC19(c *Ctx) {
 		if acc && (len(body) < 5 || body[0] != fxpVersion || binary.BigEndian.Uint32(body[1:]) != 3) {
 			ok, why = false, "client accepted a handshake that is not a version-3 VERSION packet"
 		}
+		// ... and only if what follows the version is a whole number of well-formed (name, data) string pairs
+		if ok && acc && len(body) >= 5 && !c19PairsWellFormed(body[5:]) {
+			ok, why = false, "client accepted a VERSION packet whose extension list is not a sequence of whole (name, data) pairs"
+		}
 		c.Oracle(n, ok, why)
 		c.Stat("hs_" + ek)
 	}
@@ -373,4 +377,21 @@ func runC19(c *Ctx) {
 		}
 		rs.Close()
 	}
+}
+
+// c19PairsWellFormed: b is exactly a sequence of length-prefixed string pairs
+func c19PairsWellFormed(b []byte) bool {
+	for len(b) > 0 {
+		for k := 0; k < 2; k++ {
+			if len(b) < 4 {
+				return false
+			}
+			l := binary.BigEndian.Uint32(b)
+			if uint64(l) > uint64(len(b)-4) {
+				return false
+			}
+			b = b[4+l:]
+		}
+	}
+	return true
 }
